@@ -285,6 +285,10 @@ class Gen:
             lambda: "(def(%s, $1.first(0)) -> %s(%s.select(%s)))" % (f, f, self.list_lit(env, 1, minlen=2), self.tk("$ + 1")),
             lambda: "(let(%s => %s.select(%s)) -> let(%s => $%s.where(%s)) -> $%s.first(0))" % (x, self.list_lit(env, 1, minlen=2), self.tk("$"), y, x, self.tk("$ > 1"), y),
             lambda: "(let(%s => %s.select(%s)) -> $%s.select(%s).first(0))" % (x, self.list_lit(env, 1, minlen=2), self.tk("$ + 1"), x, self.tk("$ * 3")),
+            # many positional arguments: $10, $11 ... are arguments of the innermost lambda like $1..$9
+            lambda: "(def(%s, [$1, $9, $10, $11, $12]) -> %s(%s))" % (f, f, ", ".join(str(k * 3) for k in range(1, rng.randrange(10, 14)))),
+            lambda: "(with(%s) -> def(%s, [$10, $2]) -> [%s(%s), $10, $11])" % (", ".join(str(k) for k in range(1, 12)), f, f, ", ".join(str(k * 2) for k in range(1, 11))),
+            lambda: "(let(%s) -> [$1, $10, $12, $13])" % ", ".join(str(k + 5) for k in range(12)),
             # null bindings shadow outer non-null ones
             lambda: "(let(%s => %s) -> let(%s => null) -> [$%s, $%s = null])" % (x, i(), x, x, x),
             lambda: "[null, %s, null].select([$, $ = null])" % i(),
